@@ -13,6 +13,10 @@ package main
 //             sched@k (k-th NewRPSSchedule call, 1-based) | panic@k (k-th Shoot, 1-based)
 //   cancel  : none | pre | warm | bind | shot<k> | drain | after   (hook inside pool K's mock, default p0)
 //   slow    : prov | agg | shot  (that component ignores its context for slowDelay after the cancel)
+//   ek      : plain (default) | dl  (optional token; dl: every error the mocks of this pool return has the CAUSE
+//             context.DeadlineExceeded - the component's own deadline, wrapped with pkg/errors - which is a component
+//             failure and never "the error of the engine's context")
+//   prov/agg ret additionally: ctxw = the context's error wrapped with pkg/errors (still the context's error)
 // output : res=<cls> canc=<0|1> lat=<fast|mid|slow|-> wait=<ok|hang> leak=<n> eng=<pool results Engine.Run consumed>
 //          engc=<0|1> sup=<pool results that were suppressed>
 //          pK.main=<..> pK.aw=<trace> pK.guns=<created> pK.closes=<sorted Close counts of the created guns>
@@ -21,10 +25,14 @@ package main
 //   Engine.Run (fast < 500 ms, slow > 1500 ms; a "slow:" component ignores its context for 2 s).
 
 import (
+	"bufio"
 	"context"
 	"errors"
 	"fmt"
+	"io"
 	"math/rand"
+	"os"
+	"os/exec"
 	"regexp"
 	"runtime"
 	"sort"
@@ -73,6 +81,7 @@ type poolSpec struct {
 	failSched         int // 0 none
 	panicShot         int // 0 none
 	slow              string
+	ek                string // "" | "dl"
 }
 
 type plan struct {
@@ -106,7 +115,7 @@ func parsePosRet(s string) (posRet, error) {
 		return pr, fmt.Errorf("bad pos %q", pos)
 	}
 	switch ret {
-	case "nil", "err", "ctx":
+	case "nil", "err", "ctx", "ctxw":
 	default:
 		return pr, fmt.Errorf("bad ret %q", ret)
 	}
@@ -142,6 +151,14 @@ func parsePool(s string) (poolSpec, error) {
 		case "slow":
 			if v != "-" {
 				ps.slow = v
+			}
+		case "ek":
+			switch v {
+			case "plain", "-":
+			case "dl":
+				ps.ek = v
+			default:
+				return ps, fmt.Errorf("bad ek %q", v)
 			}
 		case "fail":
 			if v == "-" {
@@ -295,6 +312,11 @@ func (p *poolRt) verr(comp string) error {
 	}
 	p.errs[comp] = true
 	p.mu.Unlock()
+	if p.spec.ek == "dl" {
+		// the component ran into its OWN deadline: the cause is a context-kind error, but not the error of any
+		// context of the engine (those are only ever cancelled)
+		return pkgerrors.WithMessage(pkgerrors.WithStack(context.DeadlineExceeded), fmt.Sprintf("verr.%s.p%d", comp, p.idx))
+	}
 	return fmt.Errorf("verr.%s.p%d", comp, p.idx)
 }
 
@@ -304,6 +326,10 @@ func (p *poolRt) retOf(ctx context.Context, ret, comp string) error {
 		return p.verr(comp)
 	case "ctx":
 		return ctx.Err()
+	case "ctxw":
+		if e := ctx.Err(); e != nil {
+			return pkgerrors.WithMessage(pkgerrors.WithStack(e), "stopped")
+		}
 	}
 	return nil
 }
@@ -484,13 +510,14 @@ func errCls(err error) string {
 	if err == nil {
 		return "ok"
 	}
-	c := pkgerrors.Cause(err)
-	if c == context.Canceled || c == context.DeadlineExceeded || errors.Is(err, context.Canceled) {
-		return "ctx"
-	}
+	// an error made by a mock component is a component error whatever its cause is (ek:dl: its own deadline)
 	msg := err.Error()
 	if m := reVerr.FindStringSubmatch(msg); m != nil {
 		return "e." + m[1]
+	}
+	c := pkgerrors.Cause(err)
+	if c == context.Canceled || c == context.DeadlineExceeded || errors.Is(err, context.Canceled) {
+		return "ctx"
 	}
 	if strings.Contains(msg, "Out of ammo") {
 		return "ooa"
@@ -600,9 +627,6 @@ func runCase(input string) string {
 	}
 	runMu.Lock()
 	defer runMu.Unlock()
-	if hangs.Load() >= maxHangs {
-		return "SKIPPED-AFTER-HANGS"
-	}
 
 	baseline := settleGoroutines(-1, 200*time.Millisecond)
 
@@ -660,9 +684,6 @@ func runCase(input string) string {
 	case <-waited:
 	case <-time.After(waitTimeout):
 		waitOK = false
-	}
-	if hungRun || !waitOK {
-		hangs.Add(1)
 	}
 	extra := 0
 	if !waitOK {
@@ -830,11 +851,179 @@ func settleGoroutines(target int, max time.Duration) int {
 	}
 }
 
+// ---------------------------------------------------------------- supervisor / worker
+//
+// The engine runs in a WORKER process (this binary with C05_WORKER=1; inputs on stdin, one observation line per input
+// on stdout). A panic in one of the engine's own goroutines (e.g. "sync: negative WaitGroup counter" after a second
+// onWaitDone) cannot be recovered and kills the process it happens in: the supervisor then reports the case in flight
+// as `PANIC process died: <panic line>` - a concrete failing input - and starts a fresh worker for the next case.
+
+type tailBuf struct {
+	mu sync.Mutex
+	b  []byte
+}
+
+func (t *tailBuf) Write(p []byte) (int, error) {
+	t.mu.Lock()
+	t.b = append(t.b, p...)
+	if len(t.b) > 1<<16 {
+		t.b = t.b[len(t.b)-1<<15:]
+	}
+	t.mu.Unlock()
+	return len(p), nil
+}
+
+func (t *tailBuf) panicLine() string {
+	t.mu.Lock()
+	defer t.mu.Unlock()
+	for _, l := range strings.Split(string(t.b), "\n") {
+		if strings.HasPrefix(l, "panic:") || strings.HasPrefix(l, "fatal error:") {
+			return sanitize(l)
+		}
+	}
+	return "no-panic-line"
+}
+
+var sup struct {
+	mu     sync.Mutex
+	cmd    *exec.Cmd
+	in     io.WriteCloser
+	out    *bufio.Reader
+	errBuf *tailBuf
+	deaths int
+}
+
+const (
+	maxDeaths    = 6
+	childTimeout = 19 * time.Second // < the framework's per-case timeout (20 s)
+)
+
+func supStart() error {
+	exe, err := os.Executable()
+	if err != nil {
+		return err
+	}
+	cmd := exec.Command(exe)
+	cmd.Env = append(os.Environ(), "C05_WORKER=1")
+	in, err := cmd.StdinPipe()
+	if err != nil {
+		return err
+	}
+	out, err := cmd.StdoutPipe()
+	if err != nil {
+		return err
+	}
+	eb := &tailBuf{}
+	cmd.Stderr = eb
+	if err := cmd.Start(); err != nil {
+		return err
+	}
+	sup.cmd, sup.in, sup.out, sup.errBuf = cmd, in, bufio.NewReaderSize(out, 1<<16), eb
+	return nil
+}
+
+func supKill() {
+	if sup.cmd != nil {
+		_ = sup.in.Close()
+		_ = sup.cmd.Process.Kill()
+		_ = sup.cmd.Wait()
+		sup.cmd = nil
+	}
+}
+
+func supervisedRun(input string) string {
+	if _, err := parsePlan(input); err != nil {
+		return "BADINPUT " + err.Error()
+	}
+	sup.mu.Lock()
+	defer sup.mu.Unlock()
+	if hangs.Load() >= maxHangs || sup.deaths >= maxDeaths {
+		return "SKIPPED-AFTER-HANGS"
+	}
+	if sup.cmd == nil {
+		if err := supStart(); err != nil {
+			return "BADINPUT cannot start worker: " + err.Error()
+		}
+	}
+	if _, err := io.WriteString(sup.in, input+"\n"); err != nil {
+		line := sup.errBuf.panicLine()
+		supKill()
+		sup.deaths++
+		return "PANIC process died: " + line
+	}
+	type rd struct {
+		s   string
+		err error
+	}
+	ch := make(chan rd, 1)
+	out := sup.out
+	go func() {
+		s, err := out.ReadString('\n')
+		ch <- rd{s, err}
+	}()
+	select {
+	case r := <-ch:
+		if r.err != nil {
+			// give the dying process a moment to flush its panic message
+			done := make(chan struct{})
+			go func() { _ = sup.cmd.Wait(); close(done) }()
+			select {
+			case <-done:
+			case <-time.After(2 * time.Second):
+			}
+			line := sup.errBuf.panicLine()
+			sup.cmd = nil
+			sup.deaths++
+			return "PANIC process died: " + line
+		}
+		obs := strings.TrimRight(r.s, "\n")
+		if strings.Contains(obs, "res=runhang") || strings.Contains(obs, "wait=hang") {
+			hangs.Add(1)
+			// goroutines of a hung run stay behind: continue in a fresh process
+			supKill()
+		}
+		return obs
+	case <-time.After(childTimeout):
+		supKill()
+		hangs.Add(1)
+		return "HANG worker did not answer"
+	}
+}
+
+func workerLoop() {
+	in := bufio.NewReaderSize(os.Stdin, 1<<16)
+	out := bufio.NewWriter(os.Stdout)
+	for {
+		line, err := in.ReadString('\n')
+		line = strings.TrimRight(line, "\n")
+		if line != "" {
+			obs := func() (o string) {
+				defer func() {
+					if r := recover(); r != nil {
+						o = "PANIC " + sanitize(fmt.Sprint(r))
+					}
+				}()
+				return runCase(line)
+			}()
+			fmt.Fprintln(out, drv.Clean(obs))
+			_ = out.Flush()
+		}
+		if err != nil {
+			return
+		}
+	}
+}
+
 func main() {
+	if os.Getenv("C05_WORKER") == "1" {
+		workerLoop()
+		return
+	}
+	defer supKill()
 	drv.Main(&drv.Prop{
 		ID:      "C05",
 		Gen:     gen,
-		Run:     runCase,
+		Run:     supervisedRun,
 		Class:   class,
 		Workers: 1,
 		Timeout: 20 * time.Second,
